@@ -454,6 +454,16 @@ func c17Run(c *Ctx, cs c17Case) {
 		c.Res.Hit("info:unique-names-differ")
 	}
 
+	// informational only: UniqueName is documented as disambiguating, the property does not promise it
+	uq := map[string]bool{}
+	for i, x := range real.Sources {
+		if i > 0 && uq[x.Unique] {
+			c.Res.Hit("info:unique-name-shared-by-two-sources")
+			break
+		}
+		uq[x.Unique] = true
+	}
+
 	// distribution / non-triviality
 	slots, recursive, inl, empty := 0, false, false, 0
 	for _, st := range real.Stacks {
@@ -546,10 +556,12 @@ func runC17(c *Ctx) {
 	defer os.RemoveAll(cfgDir)
 
 	r := NewRng(c.Seed)
-	for _, cs := range c17Shapes() {
-		c17Run(c, cs)
+	if os.Getenv("C17_NO_SHAPES") == "" { // self-test of the generators alone: C17_NO_SHAPES=1 and an empty -corpus
+		for _, cs := range c17Shapes() {
+			c17Run(c, cs)
+		}
 	}
-	nDirect, nWeb := 2500*c.Scale, 250*c.Scale
+	nDirect, nWeb := 12000*c.Scale, 1200*c.Scale
 	for i := 0; i < nDirect; i++ {
 		c17Run(c, c17Gen(r.Fork(), "direct", i))
 	}
